@@ -166,6 +166,11 @@ def check_records(case, ctx: Ctx):
             ctx.record(case, False, ["records", "lexical-categorical-bins-refused"])
             return
     else:
+        if len(recs) % 2 == 0:
+            # options equal to the documented preset of the "pairs" schema are left out
+            for name, default in (("is_one_based", False), ("tril_action", "reflect"), ("sort", False)):
+                if skw[name] == default:
+                    skw = {k: v for k, v in skw.items() if k != name}
         sanitize = call("sanitize_records()", sanitize_records, bins, **skw)
     df_in = _frame(shuffled, case["one_based"])
     if status == "invalid":
@@ -246,8 +251,13 @@ def check_pixels(case, ctx: Ctx):
                        "strand1": pd.Series([r[3] for r in recs], dtype=object),
                        "strand2": pd.Series([r[4] for r in recs], dtype=object),
                        "rid": np.array([r[5] for r in recs], dtype=np.int64)})
-    f = call("sanitize_pixels()", sanitize_pixels, gen.bins_df(bt), is_one_based=case["one_based"], tril_action=case["tril"],
-             sided_fields=("strand",), sort=case["sort"])
+    skw = dict(is_one_based=case["one_based"], tril_action=case["tril"], sided_fields=("strand",), sort=case["sort"])
+    if len(recs) % 2 == 0:
+        # options equal to the documented defaults (zero-based ids, mirror lower-triangle records, sort) are left out
+        for name, default in (("is_one_based", False), ("tril_action", "reflect"), ("sort", True)):
+            if skw[name] == default:
+                del skw[name]
+    f = call("sanitize_pixels()", sanitize_pixels, gen.bins_df(bt), **skw)
     out = call("sanitize_pixels(chunk)", f, df)
     want = {}
     for i, j, v, s1, s2, rid in recs:
@@ -577,4 +587,4 @@ def run(ctx: Ctx):
         return
     if not run_given(ctx, "cli_load", cli_load_cases(), check_cli_load, per_shard(ctx, 160 if q else 3200), batch=20):
         return
-    run_given(ctx, "tabix", tabix_cases(), check_tabix, per_shard(ctx, 48 if q else 1200), batch=12)
+    run_given(ctx, "tabix", tabix_cases(), check_tabix, per_shard(ctx, 96 if q else 2400), batch=12)
